@@ -71,6 +71,18 @@ CHECKS = {
    text="Histories of 2-5 run/edit/hot-swap steps over programs built from six independent stateful voices with pairwise distinct state-cell shapes: insert, delete, replace a voice at any position, change a constant, nest a voice, or an edit that fails to compile (the fault, at any point of the history). A harness model of each voice predicts every channel of every sample: untouched voices continue, new ones start from zero, a failed compile changes nothing. Both runtimes.",
    note="The voice library is small by design (distinct cell shapes keep 'untouched' unambiguous); a re-nested voice is not predicted. One open finding (WASM keeps the old channel count after a swap) is tolerated by comparing the common channel prefix.",
    design="2.C07"),
+ "C11": dict(
+   category="exploration",
+   technique="model-based testing of generated task multisets (global/dsp/task origins, equal and fractional times, chains, fan-out) against a reference schedule model, plus VM-vs-WASM differential",
+   text="Programs are generated from a multiset of (time, commutative effect) tasks scheduled from global scope, from dsp and from running tasks; a harness-side schedule model (pending multiset keyed by the truncated time, run-before-dsp, exactly once) predicts the accumulator outputs of every sample. The VM must equal the model bitwise and WASM must equal the VM; a small grid of global-scope schedules is enumerated exhaustively.",
+   note="Order among equal-time tasks is not judged (effects commute). Times at or before the current sample are never generated (documented precondition). One open WASM finding (tick-created closures overwritten) is tolerated only under a stated hazard predicate.",
+   design="2.C11"),
+ "C12": dict(
+   category="exploration",
+   technique="invariant checking over long runs of generated allocating programs: live closure/heap counts after N vs 2N samples, stale-handle assertions and warnings",
+   text="Generated programs that create closures per sample are run for 2N samples on the VM; the numbers of live closures and heap objects after sample N and after sample 2N must be equal, no closure handle may be used after release (hook assertion) and no retain/release may hit an invalid heap handle (log sink).",
+   note="VM only. Boxed recursive variants and scheduled tasks are not generated. Two open leak findings (lambda passed as argument, closure returned by a call inside dsp) are switched off in the generator and pinned by replay.",
+   design="2.C12"),
 }
 
 NOT_YET = {
